@@ -322,6 +322,7 @@ func (b *Reader) ReadSlice(delim byte) (line []byte, err error) {
 		b.r += i + 1
 
 		b.TotalRead += i + 1
+		b.noteLastByte(line1)
 
 		return line1, nil
 	}
@@ -332,6 +333,7 @@ func (b *Reader) ReadSlice(delim byte) (line []byte, err error) {
 			line := b.buf[b.r:b.w]
 
 			b.TotalRead += b.w - b.r
+			b.noteLastByte(line)
 
 			b.r = b.w
 			return line, b.readErr()
@@ -345,7 +347,9 @@ func (b *Reader) ReadSlice(delim byte) (line []byte, err error) {
 			line := b.buf[0 : n+i+1]
 			b.r = n + i + 1
 
-			b.TotalRead += i + 1
+			// the line consists of the n bytes buffered before the fill plus i+1 new ones
+			b.TotalRead += n + i + 1
+			b.noteLastByte(line)
 
 			return line, nil
 		}
@@ -353,10 +357,20 @@ func (b *Reader) ReadSlice(delim byte) (line []byte, err error) {
 		// Buffer is full?
 		if b.Buffered() >= len(b.buf) {
 			b.TotalRead += len(b.buf)
+			b.noteLastByte(b.buf)
 
 			b.r = b.w
 			return b.buf, ErrBufferFull
 		}
+	}
+}
+
+// noteLastByte records the last byte handed out by ReadSlice, so that a following
+// UnreadByte re-exposes that byte and not one remembered from an earlier read.
+func (b *Reader) noteLastByte(line []byte) {
+	if i := len(line) - 1; i >= 0 {
+		b.lastByte = int(line[i])
+		b.lastRuneSize = -1
 	}
 }
 
@@ -385,6 +399,7 @@ func (b *Reader) ReadLine() (line []byte, isPrefix bool, err error) {
 				panic("bfe_bufio: tried to rewind past start of buffer")
 			}
 			b.r--
+			b.TotalRead-- // the '\r' is not consumed yet
 			line = line[:len(line)-1]
 		}
 		return line, true, nil
@@ -471,6 +486,9 @@ func (b *Reader) ReadString(delim byte) (line string, err error) {
 
 // WriteTo implements io.WriterTo.
 func (b *Reader) WriteTo(w io.Writer) (n int64, err error) {
+	b.lastByte = -1
+	b.lastRuneSize = -1
+
 	n, err = b.writeBuf(w)
 	if err != nil {
 		return
@@ -714,6 +732,7 @@ func (b *Writer) ReadFrom(r io.Reader) (n int64, err error) {
 	for {
 		if b.Available() == 0 {
 			if err1 := b.flush(); err1 != nil {
+				b.TotalWrite += int(n)
 				return n, err1
 			}
 		}
